@@ -37,7 +37,7 @@ func readVariantExpect(path, expect string) (*variant, error) {
 	v := &variant{Name: strings.TrimSuffix(filepath.Base(path), ".diff"), Files: map[string][]string{}}
 	sc := bufio.NewScanner(f)
 	sc.Buffer(make([]byte, 1<<20), 1<<24)
-	cur := ""
+	cur, lastOld := "", ""
 	for sc.Scan() {
 		line := sc.Text()
 		switch {
@@ -45,7 +45,18 @@ func readVariantExpect(path, expect string) (*variant, error) {
 			v.Expect = strings.Fields(strings.TrimPrefix(line, "# expect:"))[0]
 		case strings.HasPrefix(line, "+++ b/"):
 			cur = strings.TrimPrefix(line, "+++ b/")
-		case strings.HasPrefix(line, "diff --git"), strings.HasPrefix(line, "index "), strings.HasPrefix(line, "--- "):
+		case strings.HasPrefix(line, "+++ /dev/null"):
+			// file removed by the change: overlaid by its bare package clause
+			cur = ""
+			if lastOld != "" {
+				v.Files[lastOld] = append(v.Files[lastOld], "\\ file deleted")
+			}
+		case strings.HasPrefix(line, "diff --git"):
+			cur, lastOld = "", ""
+		case strings.HasPrefix(line, "--- a/"):
+			lastOld = strings.TrimPrefix(line, "--- a/")
+		case strings.HasPrefix(line, "index "), strings.HasPrefix(line, "--- "), strings.HasPrefix(line, "new file mode"), strings.HasPrefix(line, "deleted file mode"),
+			strings.HasPrefix(line, "old mode"), strings.HasPrefix(line, "new mode"), strings.HasPrefix(line, "similarity index"), strings.HasPrefix(line, "rename "):
 		default:
 			if cur != "" {
 				v.Files[cur] = append(v.Files[cur], line)
@@ -154,7 +165,18 @@ func overlayFor(v *variant) (map[string][]byte, bool) {
 		abs := filepath.Join(RepoRoot, rel)
 		orig, err := os.ReadFile(abs)
 		if err != nil {
-			return nil, false
+			if !os.IsNotExist(err) {
+				return nil, false
+			}
+			orig = nil // a file the change adds
+		}
+		if len(hunks) == 1 && hunks[0] == "\\ file deleted" {
+			m := regexp.MustCompile(`(?m)^package\s+\w+`).Find(orig)
+			if m == nil {
+				return nil, false
+			}
+			ov[abs] = append(m, '\n')
+			continue
 		}
 		mod, err := applyHunks(orig, hunks)
 		if err != nil || bytes.Equal(mod, orig) {
